@@ -4,7 +4,15 @@ Definition tch_eqb (a b : tch) : bool :=
   teqb (c_tk a) (c_tk b) && N.eqb (c_off a) (c_off b) && N.eqb (c_val a) (c_val b) &&
   option_eqb teqb (c_rm a) (c_rm b).
 
-Inductive top := TEdit (pf pt : tpos) (vals : list N) (t : ticket) (v : option vvec).
+Inductive top :=
+| TEdit (pf pt : tpos) (vals : list N) (t : ticket) (v : option vvec)
+| TLocal (i j : nat) (vals : list N) (t : ticket).   (* CreateRange(i, j) on this replica, then Edit *)
+
+Definition trun_op (o : top) (l : list tch) : option (list tch) :=
+  match o with
+  | TEdit pf pt vals t v => edit pf pt vals t v l
+  | TLocal i j vals t => local_edit i j vals t l
+  end.
 
 (* a step: the replica that executes the operation, the operation, whether the implementation
    reported an error, and the replica's characters afterwards (every run expanded, head excluded) *)
@@ -22,8 +30,8 @@ Fixpoint set_nth {A} (l : list A) (i : nat) (x : A) : list A :=
 Fixpoint trun (st : list (list tch)) (steps : list tstep) : bool :=
   match steps with
   | [] => true
-  | (i, TEdit pf pt vals t v, oerr, obs) :: r =>
-      match edit pf pt vals t v (nth i st []) with
+  | (i, o, oerr, obs) :: r =>
+      match trun_op o (nth i st []) with
       | Some l' => negb oerr && list_eqb tch_eqb l' obs && trun (set_nth st i l') r
       | None => oerr && trun st r
       end
